@@ -91,6 +91,10 @@ PROPS = {
         "mc": L0_QUICK + L0_THOROUGH,
         "drivers": [drv("rand", "debug"), drv("rand", "release", tiers=T)],
     },
+    "C10": {
+        "mc": L0_QUICK + L0_THOROUGH,
+        "drivers": [drv("forms", "debug"), drv("forms", "release", tiers=T)],
+    },
     "C16": {
         "mc": [],
         "drivers": [],
@@ -115,6 +119,7 @@ own("C05", "modpow modinv")
 own("C06", "to_str_radix fmt to_radix_le to_radix_be parse from_radix_le from_radix_be")
 own("C08", "to_prim to_prim_val to_biguint to_biguint_val to_bigint to_f64 to_f32 from_prim from_float")
 own("C09", "from_bytes_le from_bytes_be new_u32 from_signed_bytes_le from_signed_bytes_be to_bytes_le to_bytes_be to_u32_digits to_u64_digits to_signed_bytes_le to_signed_bytes_be iter_collect iter")
+own("C10", "add sub mul div rem rem_prim sum product bitand bitor bitxor shl shr pow checked_add checked_sub checked_mul checked_div div_rem div_floor mod_floor div_mod_floor div_ceil div_euclid rem_euclid div_rem_euclid checked_div_euclid checked_rem_euclid checked_div_rem_euclid")
 own("C11", "sqrt cbrt nth_root")
 own("C12", "pow pow_big")
 own("C13", "gcd lcm gcd_lcm extended_gcd extended_gcd_lcm next_multiple_of prev_multiple_of is_multiple_of is_even is_odd inc dec")
